@@ -960,6 +960,11 @@ class SourceCatalog:
             the input ``labels``.
         """
         self._segment_img.check_labels(labels)
+        # the labels must be in this catalog (it may be a subset of the
+        # segmentation image labels)
+        missing = np.setdiff1d(labels, self.labels)
+        if missing.size > 0:
+            raise ValueError(f'label(s) {missing} are not in this catalog')
         sorter = np.argsort(self.labels)
         indices = sorter[np.searchsorted(self.labels, labels, sorter=sorter)]
         return self[indices]
